@@ -105,7 +105,7 @@ Ltac inv_some := match goal with H : Some _ = Some _ |- _ => inversion H; subst;
 Ltac step_cases H :=
   unfold step in H;
   repeat match type of H with
-  | context [match ?ac with TryRecv _ => _ | Recv _ _ => _ | CloneRx _ _ => _ | DropRx _ => _ | RStep _ => _ | Fire _ => _
+  | context [match ?ac with TryRecv _ => _ | Recv _ _ => _ | CloneRx _ _ => _ | DropRx _ => _ | RStep _ => _ | Fire _ _ => _
                           | Send _ => _ | CloneTx _ _ => _ | DropTx _ => _ | SStep _ => _ | Free => _ end] => destruct ac
   | context [r_ready ?x] => let E := fresh "Erd" in destruct (r_ready x) eqn:E
   | context [s_ready ?y] => let E := fresh "Erd" in destruct (s_ready y) eqn:E
